@@ -45,6 +45,8 @@ def run_one(m, tier):
                         + ("" if r.returncode in (0, 1) else " :: " + r.stdout[-300:].replace("\n", " / ")))
             if r.returncode == 1 and vio:
                 caught = True
+                if os.environ.get("SELFTEST_STOP_AT_FIRST_CATCH"):
+                    break
         return m, ("CAUGHT" if caught else "MISSED"), "; ".join(outs), time.time() - t
     finally:
         shutil.rmtree(scratch, ignore_errors=True)
